@@ -594,6 +594,16 @@ func (w *world) emit(op string, o obs) {
 	fmt.Fprintln(out, b.String())
 }
 
+var callbackPanic = errors.New("reader callback panics")
+
+// one reader callback in five panics
+func pSuffix(rng *prng.R) string {
+	if rng.Intn(5) == 0 {
+		return "p"
+	}
+	return ""
+}
+
 func fill(rng *prng.R, n int) []byte {
 	b := make([]byte, n)
 	for i := range b {
@@ -782,7 +792,13 @@ func (w *world) exec(line string) {
 		} else {
 			finish(nil)
 		}
-	case "with", "withf":
+	case "with", "withf", "withp", "withfp":
+		// withp / withfp: the innermost callback panics (the panic is caught out here): every level's
+		// release must still run, so for the model these are plain `with` / `withf`
+		// (with injected faults the call's own error would be swallowed by the panic: then the callback
+		// returns normally)
+		panics := strings.HasSuffix(f[0], "p") && flt == ""
+		f[0] = strings.TrimSuffix(f[0], "p")
 		s := getSec(atoi(1))
 		if s == nil || !begin(s.impl) {
 			o.res = "bad-op"
@@ -807,6 +823,9 @@ func (w *world) exec(line string) {
 				return s.s.WithBytes(func(b []byte) error {
 					if d == 0 {
 						touch(b)
+						if panics {
+							panic(callbackPanic)
+						}
 						return nil
 					}
 					return inner(d - 1)
@@ -815,6 +834,9 @@ func (w *world) exec(line string) {
 			ret, e := s.s.WithBytesFunc(func(b []byte) ([]byte, error) {
 				if d == 0 {
 					touch(b)
+					if panics {
+						panic(callbackPanic)
+					}
 					return []byte{42}, nil
 				}
 				return []byte{42}, inner(d - 1)
@@ -825,7 +847,17 @@ func (w *world) exec(line string) {
 			return e
 		}
 		guard(func() {
-			err = inner(nest)
+			func() {
+				defer func() {
+					if e := recover(); e != nil {
+						if e != callbackPanic {
+							panic(e)
+						}
+						err = nil // the callback's own panic came through, as it must
+					}
+				}()
+				err = inner(nest)
+			}()
 			o.res = classifyErr(err)
 		})
 		if w.real && s.addr != 0 {
@@ -962,6 +994,8 @@ func faultCase(rng *prng.R, impl, target string, size int, fs, fs2 []fault) bool
 		w.exec(fmt.Sprintf("new %s %d", impl, size))
 		run(fmt.Sprintf("%s 0 %d%s", target, 1, flt))
 		w.exec("with 0 0")
+		w.exec("withfp 0 1")
+		w.exec("withp 0 0")
 		w.exec("withf 0 2")
 		run("close 0" + fltStr(fs2))
 		w.exec("close 0")
@@ -1079,9 +1113,9 @@ func randomMode(rng *prng.R, kind string, cases, length int, faults bool) {
 			case 1:
 				w.exec(fmt.Sprintf("rand %s %d%s", impl, sizes[rng.Intn(len(sizes))], maybeFlt()))
 			case 2:
-				w.exec(fmt.Sprintf("with %d %d%s", sid, rng.Intn(3), maybeFlt()))
+				w.exec(fmt.Sprintf("with%s %d %d%s", pSuffix(rng), sid, rng.Intn(3), maybeFlt()))
 			case 3:
-				w.exec(fmt.Sprintf("withf %d %d%s", sid, rng.Intn(3), maybeFlt()))
+				w.exec(fmt.Sprintf("withf%s %d %d%s", pSuffix(rng), sid, rng.Intn(3), maybeFlt()))
 			case 4:
 				w.exec(fmt.Sprintf("reader %d", sid))
 			case 5:
